@@ -302,6 +302,16 @@ def strip_terminator(s):
     return s
 
 
+def _surrogate_only_difference(back, r):
+    """The known finding (adjacent surrogate halves merge in JSON) must not be re-reported through the second save."""
+    import dataclasses
+    try:
+        args = [getattr(r, f.name) for f in dataclasses.fields(r)]
+        return type(r)(*_merge_surrogate_pairs(args)) == back
+    except Exception:
+        return False
+
+
 def check_roundtrip(spec, res):
     r = mk(spec)
     got = outcome(lambda: r.save())
@@ -325,6 +335,32 @@ def check_roundtrip(spec, res):
     res.evaluations += 1
     res.count("roundtrips_" + spec[0])
     res.seen(("rt", spec[0], repr(spec[1])))
+    # the caller goes on working with the record it has saved - a nested list / dict changed in place, a string field
+    # re-assigned - and saves it again: the round trip holds for the record as it is now
+    import copy
+    import dataclasses
+    changed = []
+    r = mk(copy.deepcopy(spec))         # (the spec itself is used again elsewhere: work on a record of its own)
+    r.save()
+    for f in dataclasses.fields(r):
+        v = getattr(r, f.name)
+        if isinstance(v, list) and "list" not in changed:
+            v.append("later")
+            changed.append("list")
+        elif isinstance(v, dict) and "dict" not in changed:
+            v["later"] = 1
+            changed.append("dict")
+        elif isinstance(v, str) and "str" not in changed and f.name != "name":
+            setattr(r, f.name, v + "x")
+            changed.append("str")
+    if changed:
+        got2 = outcome(lambda: r.save())
+        back = outcome(lambda: type(r).load(got2[1])) if got2[0] == "ok" else got2
+        if back[0] != "ok" or back[1] != r:
+            if not (back[0] == "ok" and spec[0][0] == "J" and _surrogate_only_difference(back[1], r)):
+                raise Violation("roundtrip-mismatch", f"a record saved once, then changed by the caller ({', '.join(changed)} field) and saved again: "
+                                f"load(save(r)) -> {_short(back)} for r={_short(r)}; first text {_short(body)}, second {_short(got2)}", {})
+        res.count("records_changed_and_saved_again")
     return body
 
 
